@@ -17,7 +17,7 @@ UNWIND_RULES = [
     (r"core::slice::cmp|chaining_impl|equal_same_length|SlicePartialEq|SlicePartialOrd|SliceOrd", 10),
     (r"^(vh::)?spec::", 10),
     (r"^(vh::)?sym::", 10),
-    (r"^(vh::)?k::bytes", 10),
+    (r"^(vh::)?k::bytes", 18),
     (r"binary_search", 15),
 ]
 
@@ -132,9 +132,9 @@ PROPS["C02"] = P(
         J("c02_bytes_len1", unwind=4, uw=mk({r"Split|position|split_ref|c02::": 3}, tok_uw(1)), stubs=PARSER_STUBS, desc="from_bytes on every 1-byte string vs reference split + recogniser"),
         J("c02_bytes_len2", tier="t", unwind=5, uw=mk({r"Split|position|split_ref|c02::": 4}, tok_uw(2)), stubs=PARSER_STUBS, desc="every 2-byte string", weight=2, mem_gb=16),
         J("c02_bytes_len3", unwind=6, uw=mk({r"Split|position|split_ref|c02::": 5}, tok_uw(3)), stubs=PARSER_STUBS, desc="every 3-byte string", tier="t", weight=4, mem_gb=30),
-        J("c02_bytes_len4", tier="t", unwind=7, uw=mk({r"Split|position|split_ref|c02::": 6}, tok_uw(4)), stubs=PARSER_STUBS, desc="every 4-byte string", weight=5, mem_gb=30),
+        J("c02_bytes_len4", tier="x", unwind=7, uw=mk({r"Split|position|split_ref|c02::": 6}, tok_uw(4)), stubs=PARSER_STUBS, desc="every 4-byte string", weight=5, mem_gb=30),
         J("c02_sep_en_us", tier="t", unwind=7, uw=mk({r"Split|position|split_ref|c02::|spec::infos": 7}, tok_uw(1)), stubs=PARSER_STUBS, desc="from_bytes on 'en?US' with ? any byte: exactly '-' and '_' separate", weight=2, mem_gb=16),
-        J("c02_sep_en_latn_us_macos", tier="t", unwind=18, uw=mk({r"Split|position|split_ref|c02::|spec::infos": 18}, tok_uw(3)), stubs=PARSER_STUBS, desc="from_bytes on 'en?Latn?US?macos', each ? any byte (2^24 inputs)", weight=3, mem_gb=30, cbmc=NOPTR),
+        J("c02_sep_en_latn_us_macos", tier="x", unwind=18, uw=mk({r"Split|position|split_ref|c02::|spec::infos": 18}, tok_uw(3)), stubs=PARSER_STUBS, desc="from_bytes on 'en?Latn?US?macos', each ? any byte (2^24 inputs)", weight=3, mem_gb=30, cbmc=NOPTR),
         J("c02_bytes_3", tier="x", unwind=7, uw=mk({r"Split|position|split_ref|c02::": 6}, tok_uw(4)), stubs=PARSER_STUBS, desc="LanguageIdentifier::from_bytes on every byte string of length <= 3 vs reference split + recogniser", weight=3),
         J("c02_bytes_4", tier="x", unwind=8, uw=mk({r"Split|position|split_ref|c02::": 7}, tok_uw(5)), stubs=PARSER_STUBS, desc="every byte string of length <= 4", weight=4, mem_gb=16),
         J("c02_tokens_4", tier="t", unwind=6, uw=tok_uw(4), stubs=PARSER_STUBS, desc="4 x T9", weight=4, mem_gb=12),
@@ -181,16 +181,16 @@ PROPS["C12"] = P(
         J("c12_routes_no_variants", unwind=6, uw=mk({r"Fnv|hash": 24}, VEC_UW, VAL_UW), stubs=VEC_STUBS, desc="set_variants(&[]) / clear_variants / from_parts(.., &[]) / never set: ==, same hash, Equal; any langid with <=2 variants", weight=2, mem_gb=24),
         J("c12_route_set_empty_over_one", unwind=6, uw=mk({r"Fnv|hash": 24}, VEC_UW, VAL_UW), stubs=VEC_STUBS, desc="language-region identifier with exactly one variant: set_variants(&[]) == never had variants (==, Equal, same hash)", weight=2, mem_gb=16),
         J("c12_eq_str_near_misses", unwind=8, uw=mk({r"Split|position|c12::": 8}, tok_uw(2), FMT_UW), stubs=STR_STUBS + PARSER_STUBS, desc="the concrete identifier en-US against 9 near-miss strings (longer, shorter, other case / separator, padded, empty): enumerated guard", weight=1),
-        J("c12_ulist_eq_3_3", tier="t", unwind=6, uw=mk({r"Fnv|hash": 10, r"umodel_eq|c12::": 6}, xuw(2)), stubs=EXT_STUBS, desc="two -u- lists parsed from [S(3),S(3)]: == iff same canonical content, Equal iff ==, antisymmetric, equal => same hash", weight=4, mem_gb=24, cbmc=NOPTR),
-        J("c12_ulist_eq_2_3", tier="t", unwind=6, uw=mk({r"Fnv|hash": 10, r"umodel_eq|c12::": 6}, xuw(2)), stubs=EXT_STUBS, desc="two -u- lists parsed from [S(2),S(3)] (one keyword each)", weight=5, mem_gb=40, cbmc=NOPTR, timeout_t=5400),
+        J("c12_ulist_eq_3_3", tier="x", unwind=6, uw=mk({r"Fnv|hash": 10, r"umodel_eq|c12::": 6}, xuw(2)), stubs=EXT_STUBS, desc="two -u- lists parsed from [S(3),S(3)]: == iff same canonical content, Equal iff ==, antisymmetric, equal => same hash", weight=4, mem_gb=24, cbmc=NOPTR),
+        J("c12_ulist_eq_2_3", tier="x", unwind=6, uw=mk({r"Fnv|hash": 10, r"umodel_eq|c12::": 6}, xuw(2)), stubs=EXT_STUBS, desc="two -u- lists parsed from [S(2),S(3)] (one keyword each)", weight=5, mem_gb=40, cbmc=NOPTR, timeout_t=5400),
         J("c12_routes_ext", unwind=6, uw=mk({r"Fnv|hash": 10}, C10_UW), stubs=INSREM + EXT_STUBS, desc="attribute / private tag added then removed == never added: ==, same hash, Equal", weight=2, mem_gb=12, cbmc=NOPTR),
-        J("c12_routes_keyword", tier="t", unwind=6, uw=mk({r"Fnv|hash": 10}, C10_UW), stubs=EXT_STUBS, desc="keyword set then removed == never set: ==, same hash, Equal", weight=3, mem_gb=30, cbmc=NOPTR),
+        J("c12_routes_keyword", tier="x", unwind=6, uw=mk({r"Fnv|hash": 10}, C10_UW), stubs=EXT_STUBS, desc="keyword set then removed == never set: ==, same hash, Equal", weight=3, mem_gb=30, cbmc=NOPTR),
         J("c12_langid_ord_transitive", unwind=6, uw=VAL_UW, desc="cmp transitive on symbolic triples, <=1 variant", weight=3, mem_gb=12),
         J("c12_langid_eq_iff_string_eq", unwind=6, uw=mk(FMT_UW, VAL_UW), stubs=STR_STUBS, desc="x == y iff to_string equal, real Display/core::fmt, <=1 variant", weight=3, mem_gb=12),
-        J("c12_langid_eq_str", unwind=6, uw=mk({r"k::bytes": 20, r"c12::c12_langid_eq_str": 18, r"write_langid|write_txt": 10}, VAL_UW, FMT_UW), stubs=STR_STUBS, desc="li == &str iff str is the canonical text; str = any ASCII string <= 16 bytes", weight=3, mem_gb=24),
+        J("c12_langid_eq_str", unwind=6, uw=mk({r"c12::c12_langid_eq_str": 18, r"write_langid|write_txt": 10}, VAL_UW, FMT_UW), stubs=STR_STUBS, desc="li == &str iff str is the canonical text; str = any ASCII string <= 16 bytes", weight=3, mem_gb=24),
     ],
     bounds="pairs/triples of language identifiers: any valid language (or und), optional script, optional region, 0..1 (quick) / 0..2 (thorough) variants; &str operands: any ASCII string of <= 16 bytes",
-    outside="Locale/ExtensionsMap ordering (see level_note), identifiers with more than 2 variants, strings longer than 16 bytes",
+    outside="==/Ord/Hash of extension lists that carry keywords or tfields (two values that come out of the parser cannot be compared with the derived == under CBMC, DESIGN 10; attribute / private-tag routes are decided), Locale ordering, identifiers with more than 2 variants, strings longer than 16 bytes",
 )
 PROPS["C13"] = P(
     jobs=[
@@ -205,20 +205,20 @@ PROPS["C13"] = P(
         J("c13_ref_lemma_3", unwind=6, uw=tok_uw(3), desc="reference only, 3 x T9"),
         J("c13_ref_lemma_4", unwind=6, uw=tok_uw(4), desc="reference only, 4 x T9"),
         J("c13_glue_cut_len1", tier="t", unwind=4, uw=mk({r"Split|position|c13::": 3}, tok_uw(1)), stubs=PARSER_STUBS + ["unic_locale_impl::extensions::ExtensionsMap::try_from_iter"], desc="Locale::from_bytes vs LanguageIdentifier::from_bytes on every 1-byte string, the real parse_locale glue with the extension parser cut for non-exhausted iterators", weight=2, mem_gb=16),
-        J("c13_glue_cut_len2", tier="t", unwind=5, uw=mk({r"Split|position|c13::": 4}, tok_uw(2)), stubs=PARSER_STUBS + ["unic_locale_impl::extensions::ExtensionsMap::try_from_iter"], desc="same on every 2-byte string (every two-letter language)", weight=3, mem_gb=40),
+        J("c13_glue_cut_len2", tier="x", unwind=5, uw=mk({r"Split|position|c13::": 4}, tok_uw(2)), stubs=PARSER_STUBS + ["unic_locale_impl::extensions::ExtensionsMap::try_from_iter"], desc="same on every 2-byte string (every two-letter language)", weight=3, mem_gb=40),
         J("c13_glue_cut_len3", tier="x", unwind=6, uw=mk({r"Split|position|c13::": 5}, tok_uw(3)), stubs=PARSER_STUBS + ["unic_locale_impl::extensions::ExtensionsMap::try_from_iter"], desc="same on every 3-byte string", weight=4, mem_gb=30),
-        J("c13_locale_glue_lang2", tier="t", unwind=5, uw=glue_uw(2, 1), stubs=TLIST_STUBS, desc="Locale::from_bytes vs LanguageIdentifier::from_bytes on every 2-byte string without separator (symbolic language through the real parse_locale)", weight=3, mem_gb=30, cbmc=NOPTR),
+        J("c13_locale_glue_lang2", tier="x", unwind=5, uw=glue_uw(2, 1), stubs=TLIST_STUBS, desc="Locale::from_bytes vs LanguageIdentifier::from_bytes on every 2-byte string without separator (symbolic language through the real parse_locale)", weight=3, mem_gb=30, cbmc=NOPTR),
         J("c13_locale_glue_lang3", tier="x", unwind=6, uw=glue_uw(3, 1), stubs=TLIST_STUBS, desc="same on every 3-byte string without separator", weight=3, mem_gb=16, cbmc=NOPTR),
         J("c13_locale_glue_lang2_us", tier="x", unwind=8, uw=glue_uw(5, 2), stubs=TLIST_STUBS, desc="same on '??-US', ?? any two non-separator bytes", weight=4, mem_gb=24, cbmc=NOPTR),
         J("c13_prefix_2", tier="t", unwind=6, uw=tok_uw(2), stubs=PARSER_STUBS, desc="2 x T9: the permissive entry's result equals the strict parse of the consumed prefix", weight=2, mem_gb=30),
-        J("c13_prefix_3", tier="t", unwind=6, uw=tok_uw(3), stubs=PARSER_STUBS, desc="3 x T9", weight=3, mem_gb=40),
+        J("c13_prefix_3", tier="x", unwind=6, uw=tok_uw(3), stubs=PARSER_STUBS, desc="3 x T9", weight=3, mem_gb=40),
         J("c13_extmap_exhausted", unwind=6, uw=ext_uw(1), stubs=EXT_STUBS, desc="ExtensionsMap::try_from_iter on an exhausted iterator is Ok(empty)"),
-        J("c13_locale_glue_en_us", tier="t", unwind=8, uw=glue_uw(5, 2), stubs=TLIST_STUBS, desc="Locale::from_bytes vs LanguageIdentifier::from_bytes on 'en?US', ? any byte", weight=3, mem_gb=30, cbmc=NOPTR),
-        J("c13_locale_glue_en_x_ab", tier="t", unwind=10, uw=glue_uw(7, 3), stubs=TLIST_STUBS, desc="same on 'en?x?ab'", weight=4, mem_gb=24, cbmc=NOPTR),
+        J("c13_locale_glue_en_us", tier="x", unwind=8, uw=glue_uw(5, 2), stubs=TLIST_STUBS, desc="Locale::from_bytes vs LanguageIdentifier::from_bytes on 'en?US', ? any byte", weight=3, mem_gb=30, cbmc=NOPTR),
+        J("c13_locale_glue_en_x_ab", tier="x", unwind=10, uw=glue_uw(7, 3), stubs=TLIST_STUBS, desc="same on 'en?x?ab'", weight=4, mem_gb=24, cbmc=NOPTR),
         J("c13_conversions", unwind=6, uw=VAL_UW, desc="From/Into/AsRef between LanguageIdentifier and Locale, any langid with <=2 variants"),
     ],
-    bounds="token level, each subtag " + T9 + ": both real entries in one query on 1..2 subtags (quick) / 3 (thorough); decomposed through the reference on 1..3 subtags (quick) / 4 (thorough): real permissive entry == reference permissive parse, reference lemma (permissive == strict parse of the consumed prefix; strict success => permissive success with nothing left) on 2..4 subtags, C02 for the strict entry; extension parser on an exhausted iterator; conversions: any langid with <= 2 variants. thorough: byte-level glue frames 'en?US', 'en?x?ab', every 2-byte string without separator",
-    outside="inputs with more than 4 subtags; subtags longer than 9 bytes; the three-line glue of parse_locale (language id, then extensions on the same iterator) is only exercised by the thorough byte-level frames - a quick run decides the two token-level entries it calls, not the glue itself",
+    bounds="token level, each subtag " + T9 + ": both real entries in one query on 1..2 subtags (quick) / 3 (thorough); decomposed through the reference on 1..3 subtags (quick) / 4 (thorough): real permissive entry == reference permissive parse, reference lemma (permissive == strict parse of the consumed prefix; strict success => permissive success with nothing left) on 2..4 subtags, C02 for the strict entry; extension parser on an exhausted iterator; conversions: any langid with <= 2 variants. thorough: both real from_bytes on every 1-byte string with the extension parser cut for non-exhausted iterators (the real parse_locale glue on extension-free inputs)",
+    outside="inputs with more than 4 subtags; subtags longer than 9 bytes; the three-line glue of parse_locale (language id, then extensions on the same iterator) is only exercised by the thorough byte-level frames - a quick run decides the two token-level entries it calls, not the glue itself; byte-level glue on strings of 2+ bytes was measured out of reach",
 )
 
 PROPS["C18"] = P(
@@ -303,18 +303,18 @@ PROPS["C03"] = P(
         uf("c03_u_3", [3]), uf("c03_u_2", [2]), uf("c03_u_2_3", [2, 3]), uf("c03_u_3_3", [3, 3]), uf("c03_u_8_2_4", [8, 2, 4]),
         uf("c03_u_2_4_1", [2, 4, 1]), uf("c03_u_2_3_9", [2, 3, 9]), uf("c03_u_3_0", [3, 0]), uf("c03_u_1", [1]), uf("c03_u_9", [9]),
         uf("c03_u_4", [4]), uf("c03_u_4_2_4", [4, 2, 4]), uf("c03_u_5_3", [5, 3]),
-        uf("c03_u_2_2", [2, 2], tier="t"), uf("c03_u_2_3_2_3", [2, 3, 2, 3], tier="t"),
-        tf("c03_t_2", [2], tier="t"), tf("c03_t_2_3", [2, 3], tier="t"), tf("c03_t_3", [3], mem_gb=16), tf("c03_t_3_3", [3, 3], tier="t", mem_gb=24, timeout_t=3000), tf("c03_t_3_4", [3, 4], tier="x", mem_gb=24), tf("c03_t_8_3", [8, 3], tier="x", mem_gb=24), tf("c03_t_3_1", [3, 1], tier="t", mem_gb=24, timeout_t=3000), tf("c03_t_2_3_1", [2, 3, 1], tier="t", mem_gb=44, timeout_t=3000, trace=False), tf("c03_t_2_2_3", [2, 2, 3], tier="t"),
-        tf("c03_t_2_5_2", [2, 5, 2], tier="t", mem_gb=44, timeout_t=3000, trace=False), tf("c03_t_2_3_2_3", [2, 3, 2, 3], tier="t"),
+        uf("c03_u_2_2", [2, 2], tier="x"), uf("c03_u_2_3_2_3", [2, 3, 2, 3], tier="x"),
+        tf("c03_t_2", [2], tier="x"), tf("c03_t_2_3", [2, 3], tier="x"), tf("c03_t_3", [3], mem_gb=16), tf("c03_t_3_3", [3, 3], tier="x", mem_gb=24), tf("c03_t_3_4", [3, 4], tier="x", mem_gb=24), tf("c03_t_8_3", [8, 3], tier="x", mem_gb=24), tf("c03_t_3_1", [3, 1], tier="x", mem_gb=24), tf("c03_t_2_3_1", [2, 3, 1], tier="x", mem_gb=44, trace=False), tf("c03_t_2_2_3", [2, 2, 3], tier="x"),
+        tf("c03_t_2_5_2", [2, 5, 2], tier="x", mem_gb=44, trace=False), tf("c03_t_2_3_2_3", [2, 3, 2, 3], tier="x"),
         tk("c03_tk_h0_hybrid_sing", 3), tk("c03_tk_en_de", 2), tk("c03_tk_en_us_de", 3), tk("c03_tk_en_us_3", 3, tier="x"), tk("c03_tk_h0_3", 2), tk("c03_tk_h0_3_1", 3), tk("c03_tk_h0_3_9", 3), tk("c03_tk_h0_4_5", 3), tk("c03_tk_h0_3_k0_4", 4, tier="x"), tk("c03_tk_en_5_2", 3, tier="x"), tk("c03_tk_en_h0_3", 3),
         tk("c03_uk_ca_3", 2, t=False), tk("c03_uk_ca_4_1", 3, t=False), tk("c03_uk_3_ca_4", 3, t=False), tk("c03_uk_nu_3_ca_4", 4, t=False, tier="x", mem_gb=30),
-        mf("c03_map_u3_u3", 4, tier="t"), mf("c03_map_u3_x3", 4, tier="t"), mf("c03_map_t2_3_u3", 5, tier="t"), mf("c03_map_u3_t2", 4, tier="t"), mf("c03_map_t2_t2", 4, tier="t"), mf("c03_map_u2_3_t2_3_x3", 8, tier="t"),
+        mf("c03_mapk_u_foo_u_bar", 4, tier="x", need_cover=False), mf("c03_mapk_u_foo_x_a", 4, tier="x", need_cover=False), mf("c03_map_u3_u3", 4, tier="x"), mf("c03_map_u3_x3", 4, tier="x"), mf("c03_map_t2_3_u3", 5, tier="x"), mf("c03_map_u3_t2", 4, tier="x"), mf("c03_map_t2_t2", 4, tier="x"), mf("c03_map_u2_3_t2_3_x3", 8, tier="x"),
         J("c03_x_1", unwind=6, uw=xuw(1), stubs=EXT_STUBS, desc="-x- body, 1 x T9"),
         J("c03_x_2", unwind=6, uw=xuw(2), stubs=EXT_STUBS, desc="-x- body, 2 x T9"),
         J("c03_x_3", unwind=6, uw=xuw(3), stubs=EXT_STUBS, desc="-x- body, 3 x T9"),
     ],
-    bounds='quick: dispatcher on one fully symbolic subtag (0..9 arbitrary bytes); -u- body on the length-profiled frames [3] [2] [2,3] [3,3] [8,2,4] [2,4,1] [2,3,9] [3,0] [1] [9] [4] [4,2,4] [5,3] (lengths concrete, every byte symbolic) and the concrete-key frames [ca,3] [CA,4,1]; -x- body on 1..3 fully symbolic subtags. thorough adds: -u- frames with two keys, -t- body frames ([2] [2,3] [3] [2,2,3] [2,3,1] [2,5,2] [2,3,2,3] and concrete-key frames h0/k0/en), composition frames through the whole extension map (u-u, u-x, t-u, u-t, t-t, u-t-x)',
-    outside='the language-identifier part (C02/C13); bodies longer than the frames; subtag lengths 6 and 7 (same class as 5 and 8 in every length test of the code); duplicate keys (outside the property); the glue of parse_locale on symbolic bytes (thorough frames of C13 only). The -t- body and the composition frames are thorough-tier only: a quick run does not decide the -t- clauses',
+    bounds='dispatcher on one fully symbolic subtag (0..9 arbitrary bytes); -u- body on the length-profiled frames [3] [2] [2,3] [3,3] [8,2,4] [2,4,1] [2,3,9] [3,0] [1] [9] [4] [4,2,4] [5,3] (lengths concrete, every byte symbolic) and the concrete-key frames [ca,3] [CA,4,1] [3,ca,4]; -t- body on [3] (any tlang-shaped subtag) and on frames with concrete keys and symbolic values / trailing subtags: [h0,3] [h0,3,1] [h0,3,9] [H0,4,5] [en,h0,3], plus the concrete frames [h0,hybrid,u|U] (a field followed by a singleton), [en,de], [en,US,de] (second tlang); -x- body on 1..3 fully symbolic subtags',
+    outside="the language-identifier part (C02/C13); bodies longer than the frames; subtag lengths 6 and 7 (same class as 5 and 8 in every length test of the code); duplicate keys (outside the property); fully symbolic -t- keys, and everything through the whole extension map - symbolic composition frames and even the concrete probe [u,foo,u,bar] gave no result in 15-30 min (DESIGN 10) - so 'repeated singleton', 'u/t in either order' and 'misplaced subtag after an extension' are NOT decided, and the three-line glue of parse_locale only by C13's thorough byte-level harness",
 )
 
 PROPS["C04"] = P(
@@ -325,19 +325,19 @@ PROPS["C04"] = P(
         J("c04_u_built_attrs", unwind=6, uw=mk(FMT2, C10_UW), stubs=INSREM + EXT_STUBS + STR_STUBS, desc="Display of a -u- list built in place by two set_attribute calls with arbitrary arguments (0..2 attributes, any order / equal) == reference serialisation", weight=3, mem_gb=16, cbmc=NOPTR),
         J("c04_u_built_kw", tier="t", unwind=6, uw=mk(FMT2, {r"kv_|from_iter|extend|filter_map|FilterMap|GenericShunt|try_fold|try_for_each": 6}, C10_UW), stubs=INSREM + EXT_STUBS + STR_STUBS, desc="same plus one set_keyword (key any 2 bytes, 0..2 types of any bytes): attributes, then key and types", weight=4, mem_gb=24, cbmc=NOPTR),
         J("c04_t_built", tier="t", unwind=6, uw=mk(FMT2, {r"kv_|from_iter|extend|filter_map|FilterMap|GenericShunt|try_fold|try_for_each": 6}, C10_UW, VAL_UW), stubs=TLIST_STUBS + STR_STUBS, desc="Display of a -t- list built in place: optional tlang (language-region), optional field (key any 2 bytes, 0..2 values)", weight=4, mem_gb=24, cbmc=NOPTR),
-        J("c04_locale_built", tier="t", unwind=6, uw=mk(FMT2, {r"kv_|from_iter|extend|filter_map|FilterMap|GenericShunt|try_fold|try_for_each": 6}, C10_UW, VAL_UW), stubs=INSREM + TLIST_STUBS + STR_STUBS, desc="whole Locale built in place (language-region id, one attribute, one tfield, one private tag, all arguments arbitrary): id, then t, u, x", weight=5, mem_gb=30, cbmc=NOPTR),
-        J("c04_u_display_3_3", tier="t", unwind=6, uw=mk(FMT2, xuw(2)), stubs=EXT_STUBS + STR_STUBS, desc="Display of a -u- list parsed from [S(3),S(3)] (two attributes, any order / equal) == reference serialisation", weight=3, mem_gb=16, cbmc=NOPTR),
-        J("c04_u_display_3_2_4", tier="t", unwind=6, uw=mk(FMT2, xuw(3)), stubs=EXT_STUBS + STR_STUBS, desc="-u- list from [S(3),S(2),S(4)] (attribute, key, type)", weight=4, mem_gb=24, cbmc=NOPTR),
-        J("c04_u_display_2_3_2_3", tier="t", unwind=6, uw=mk(FMT2, xuw(4)), stubs=EXT_STUBS + STR_STUBS, desc="-u- list with two keywords (key order in the output)", weight=5, mem_gb=40, cbmc=NOPTR, timeout_t=5400),
-        J("c04_t_display_2_3", tier="t", unwind=6, uw=mk(FMT2, xuw(2)), stubs=TLIST_STUBS + STR_STUBS, desc="Display of a -t- list parsed from [S(2),S(3)] (tlang+region / tlang+? / key+value)", weight=4, mem_gb=30, cbmc=NOPTR),
-        J("c04_t_display_2_2_2_3", tier="t", unwind=6, uw=mk(FMT2, xuw(4)), stubs=TLIST_STUBS + STR_STUBS, desc="-t- list with tlang-region and one field", weight=5, mem_gb=40, cbmc=NOPTR, timeout_t=5400),
+        J("c04_locale_built", tier="x", unwind=6, uw=mk(FMT2, {r"kv_|from_iter|extend|filter_map|FilterMap|GenericShunt|try_fold|try_for_each": 6}, C10_UW, VAL_UW), stubs=INSREM + TLIST_STUBS + STR_STUBS, desc="whole Locale built in place (language-region id, one attribute, one tfield, one private tag, all arguments arbitrary): id, then t, u, x", weight=5, mem_gb=30, cbmc=NOPTR),
+        J("c04_u_display_3_3", tier="x", unwind=6, uw=mk(FMT2, xuw(2)), stubs=EXT_STUBS + STR_STUBS, desc="Display of a -u- list parsed from [S(3),S(3)] (two attributes, any order / equal) == reference serialisation", weight=3, mem_gb=16, cbmc=NOPTR),
+        J("c04_u_display_3_2_4", tier="x", unwind=6, uw=mk(FMT2, xuw(3)), stubs=EXT_STUBS + STR_STUBS, desc="-u- list from [S(3),S(2),S(4)] (attribute, key, type)", weight=4, mem_gb=24, cbmc=NOPTR),
+        J("c04_u_display_2_3_2_3", tier="x", unwind=6, uw=mk(FMT2, xuw(4)), stubs=EXT_STUBS + STR_STUBS, desc="-u- list with two keywords (key order in the output)", weight=5, mem_gb=40, cbmc=NOPTR, timeout_t=5400),
+        J("c04_t_display_2_3", tier="x", unwind=6, uw=mk(FMT2, xuw(2)), stubs=TLIST_STUBS + STR_STUBS, desc="Display of a -t- list parsed from [S(2),S(3)] (tlang+region / tlang+? / key+value)", weight=4, mem_gb=30, cbmc=NOPTR),
+        J("c04_t_display_2_2_2_3", tier="x", unwind=6, uw=mk(FMT2, xuw(4)), stubs=TLIST_STUBS + STR_STUBS, desc="-t- list with tlang-region and one field", weight=5, mem_gb=40, cbmc=NOPTR, timeout_t=5400),
         J("c04_x_display_2", unwind=6, uw=mk(FMT2, xuw(2)), stubs=EXT_STUBS + STR_STUBS, desc="Display of private tags parsed from 2 x T9", weight=2, mem_gb=12, cbmc=NOPTR),
-        J("c04_locale_display", tier="t", unwind=6, uw=mk(FMT2, xuw(2), VAL_UW), stubs=TLIST_STUBS + STR_STUBS, desc="whole Locale (language-region id, one -t- element, one -u- attribute, one private tag): order id, t, u, x", weight=5, mem_gb=40, cbmc=NOPTR, timeout_t=5400),
+        J("c04_locale_display", tier="x", unwind=6, uw=mk(FMT2, xuw(2), VAL_UW), stubs=TLIST_STUBS + STR_STUBS, desc="whole Locale (language-region id, one -t- element, one -u- attribute, one private tag): order id, t, u, x", weight=5, mem_gb=40, cbmc=NOPTR, timeout_t=5400),
         J("c04_canonicalize_tokens_2", unwind=6, uw=mk(FMT2, tok_uw(2)), stubs=PARSER_STUBS, desc="token-level canonicalize on 2 x T9: string == reference canonicalisation, not longer than input", weight=3, mem_gb=12),
         J("c04_canonicalize_tokens_3", tier="t", unwind=6, uw=mk(FMT2, tok_uw(3)), stubs=PARSER_STUBS, desc="3 x T9", weight=4, mem_gb=16),
     ],
-    bounds='quick: Display of every valid subtag; to_string of any language identifier with 0..2 variants vs reference serialiser + strict recogniser; token-level canonicalize on 2 fully symbolic subtags; -u- list built in place by two set_attribute calls with arbitrary arguments; private tags parsed from 2 fully symbolic subtags. thorough adds: canonicalize on 3 subtags; -u- list with one keyword (0..2 types), -t- list with tlang and one field, a whole Locale (id, one attribute, one tfield, one tag) built in place; Display of parsed -u-/-t- lists',
-    outside='values with more than 2 variants / attributes, more than one keyword or tfield; ExtensionsMap::other populated by hand; extension Display on parser results is thorough-only (B-tree maps of merged parser results, DESIGN 13)',
+    bounds='quick: Display of every valid subtag; to_string of any language identifier with 0..2 variants vs reference serialiser + strict recogniser; token-level canonicalize on 2 fully symbolic subtags; -u- list built in place by two set_attribute calls with arbitrary arguments; private tags parsed from 2 fully symbolic subtags. thorough adds: canonicalize on 3 subtags; -u- list with two attributes and one keyword (0..2 types), -t- list with tlang and one field, built in place',
+    outside='values with more than 2 variants / attributes, more than one keyword or tfield; a whole Locale in one string (extension order t, u, x: the three lists are decided separately, their concatenation in ExtensionsMap::fmt is one write! and is not under the solver); ExtensionsMap::other populated by hand; Display of parser results that carry maps (B-tree roots of merged parser results, DESIGN 10)',
 )
 PROPS["C05"] = P(
     jobs=[
@@ -364,14 +364,14 @@ PROPS["C09"] = P(
         J("c09_sep_concrete", unwind=13, uw=mk({r"Split|position|c09::": 13}, tok_uw(3)), stubs=PARSER_STUBS, desc="the four '-'/'_' spellings of 'en-US-macos' through from_bytes (finite, enumerated)", weight=2),
         J("c09_u_case_3", unwind=6, uw=mk({r"c09::|recase": 10}, xuw(1)), stubs=EXT_STUBS, desc="-u- body [S(3)] under a symbolic case mask", weight=2, mem_gb=12, cbmc=NOPTR),
         J("c09_u_case_2_3", tier="t", unwind=6, uw=mk({r"c09::|recase": 10}, xuw(2)), stubs=EXT_STUBS, desc="-u- body [S(2),S(3)] under a symbolic case mask", weight=4, mem_gb=24, cbmc=NOPTR),
-        J("c09_t_case_2_3", tier="t", unwind=6, uw=mk({r"c09::|recase": 10}, xuw(2)), stubs=TLIST_STUBS, desc="-t- body [S(2),S(3)] under a symbolic case mask", weight=5, mem_gb=40, cbmc=NOPTR),
-        J("c09_keyword_order", tier="t", unwind=6, uw=mk({r"c09::|recase": 10}, xuw(4)), stubs=EXT_STUBS, desc="-u- keywords [k1,v1,k2,v2] vs [k2,v2,k1,v1], distinct keys (two map entries)", weight=5, mem_gb=40, cbmc=NOPTR, timeout_t=5400),
-        J("c09_tfield_order", tier="t", unwind=6, uw=mk({r"c09::|recase": 10}, xuw(4)), stubs=TLIST_STUBS, desc="-t- fields [k1,v1,k2,v2] vs [k2,v2,k1,v1], distinct keys", weight=5, mem_gb=40, cbmc=NOPTR, timeout_t=5400),
+        J("c09_t_case_2_3", tier="x", unwind=6, uw=mk({r"c09::|recase": 10}, xuw(2)), stubs=TLIST_STUBS, desc="-t- body [S(2),S(3)] under a symbolic case mask", weight=5, mem_gb=40, cbmc=NOPTR),
+        J("c09_keyword_order", tier="x", unwind=6, uw=mk({r"c09::|recase": 10}, xuw(4)), stubs=EXT_STUBS, desc="-u- keywords [k1,v1,k2,v2] vs [k2,v2,k1,v1], distinct keys (two map entries)", weight=5, mem_gb=40, cbmc=NOPTR, timeout_t=5400),
+        J("c09_tfield_order", tier="x", unwind=6, uw=mk({r"c09::|recase": 10}, xuw(4)), stubs=TLIST_STUBS, desc="-t- fields [k1,v1,k2,v2] vs [k2,v2,k1,v1], distinct keys", weight=5, mem_gb=40, cbmc=NOPTR, timeout_t=5400),
         J("c09_sep_langid", tier="x", unwind=18, uw=mk({r"Split|position|c09::": 18}, tok_uw(3)), stubs=PARSER_STUBS, desc="'en?Latn?US?macos' with every ? either '-' or '_' vs the all-'-' spelling, through from_bytes", weight=3, mem_gb=16),
         J("c09_separators_4", tier="x", unwind=8, uw=mk({r"Split|position|c09::": 7}, tok_uw(5)), stubs=PARSER_STUBS, desc="every byte string <= 4 bytes with '-'/'_' exchanged under a symbolic mask, through from_bytes", weight=4, mem_gb=16),
     ],
-    bounds="quick: letter case on 1..2 fully symbolic subtags of a language identifier (symbolic 72-bit case mask per subtag) and on the -u- frame [3]; order and repetition of two -u- attributes (any 3 bytes each); the four separator spellings of 'en-US-macos'. thorough adds: case on 3 subtags, on the -u- frame [2,3] and the -t- frame [2,3]; variant order/repetition on [L,V1,V2]; keyword and tfield order with distinct keys; 'en?Latn?US?macos' with symbolic separators",
-    outside='relative order of -u- and -t- extensions (needs the whole extension map; composition frames of C03 thorough); to_string() equality is implied by value equality + C12 (x == y iff same string)',
+    bounds="quick: letter case on 1..2 fully symbolic subtags of a language identifier (symbolic case mask per subtag) and on the -u- frame [3]; order and repetition of two -u- attributes (any 3 bytes each); the four separator spellings of 'en-US-macos'. thorough adds: case on 3 subtags and on the -u- frame [2,3]; variant order/repetition on [L,V1,V2]",
+    outside='order of -u- keywords / -t- fields with distinct keys, case inside -t- bodies, relative order of the -u- and -t- extensions (all need two map entries or the whole extension map: measured out of reach); symbolic separators in a full identifier (byte level, C02 thorough); to_string() equality is implied by value equality + C12 (x == y iff same string)',
 )
 PROPS["C10"] = P(
     jobs=[
@@ -402,13 +402,13 @@ PROPS["C19"] = P(
         J("c19_deserialize_concrete", cfg="serde", unwind=13, uw=mk({r"Split|position|c19::|sep_frame": 12}, tok_uw(3)), stubs=PARSER_STUBS, desc="the concrete string 'en-Latn-US' through Deserialize and FromStr (reachability of the success path)", weight=1, need_cover=False),
         J("c19_deserialize_lead", tier="t", cfg="serde", unwind=6, uw=mk({r"Split|position|c19::|sep_frame": 5}, tok_uw(2)), stubs=PARSER_STUBS, desc="Deserialize(visit_str(s)) vs s.parse() on '?en', ? any ASCII byte (leading padding / separator)", weight=2, mem_gb=12),
         J("c19_deserialize_trail", tier="t", cfg="serde", unwind=6, uw=mk({r"Split|position|c19::|sep_frame": 5}, tok_uw(2)), stubs=PARSER_STUBS, desc="same on 'en?'", weight=2, mem_gb=12),
-        J("c19_deserialize_lead_trail", tier="t", cfg="serde", unwind=10, uw=mk({r"Split|position|c19::|sep_frame": 9}, tok_uw(4)), stubs=PARSER_STUBS, desc="same on '?en-US?'", weight=4, mem_gb=24),
-        J("c19_deserialize_frame", tier="t", cfg="serde", unwind=7, uw=mk({r"Split|position|c19::": 7}, tok_uw(1)), stubs=PARSER_STUBS, desc="Deserialize(visit_str(s)) vs s.parse() on 'en?US', ? any ASCII byte", weight=3, mem_gb=16),
-        J("c19_deserialize_str_2", tier="t", cfg="serde", unwind=5, uw=mk({r"Split|position|c19::": 4}, tok_uw(2)), stubs=PARSER_STUBS, desc="Deserialize(visit_str(s)) vs s.parse() for every 2-byte ASCII string", weight=3, mem_gb=16),
+        J("c19_deserialize_lead_trail", tier="x", cfg="serde", unwind=10, uw=mk({r"Split|position|c19::|sep_frame": 9}, tok_uw(4)), stubs=PARSER_STUBS, desc="same on '?en-US?'", weight=4, mem_gb=24),
+        J("c19_deserialize_frame", tier="x", cfg="serde", unwind=7, uw=mk({r"Split|position|c19::": 7}, tok_uw(1)), stubs=PARSER_STUBS, desc="Deserialize(visit_str(s)) vs s.parse() on 'en?US', ? any ASCII byte", weight=3, mem_gb=16),
+        J("c19_deserialize_str_2", tier="x", cfg="serde", unwind=5, uw=mk({r"Split|position|c19::": 4}, tok_uw(2)), stubs=PARSER_STUBS, desc="Deserialize(visit_str(s)) vs s.parse() for every 2-byte ASCII string", weight=3, mem_gb=16),
         J("c19_deserialize_str_3", tier="x", cfg="serde", unwind=7, uw=mk({r"Split|position|c19::": 6}, tok_uw(4)), stubs=PARSER_STUBS, desc="Deserialize(visit_str(s)) vs s.parse() for every ASCII string of <= 3 bytes", weight=3, mem_gb=12),
         J("c19_non_string_rejected", cfg="serde", unwind=6, desc="bool / u64 / i64 / f64 / unit / none / bytes inputs: Err, no panic"),
     ],
-    bounds="Serialize of any language identifier with <= 1 variant and of language-script-region with two variants (text up to 35 bytes) through a capturing Serializer; every non-string kind (bool, u64, i64, f64, unit, none, bytes) through Deserialize; the concrete string 'en-Latn-US' through Deserialize and FromStr (quick). thorough: Deserialize(visit_str(s)) vs s.parse() on every 1- and 2-byte ASCII string and on the frames '?en', 'en?', 'en?US', '?en-US?' (? any ASCII byte)",
+    bounds="Serialize of any language identifier with <= 1 variant and of language-script-region with two variants (text up to 35 bytes) through a capturing Serializer; every non-string kind (bool, u64, i64, f64, unit, none, bytes) through Deserialize; the concrete string 'en-Latn-US' through Deserialize and FromStr (quick). thorough: Deserialize(visit_str(s)) vs s.parse() on every 1-byte ASCII string and on the frames '?en', 'en?' (? any ASCII byte)",
     outside="serde_json's tokenizer / escapes and serde_json::Value (third-party code); strings longer than the frames; the quick tier decides deserialisation only on one concrete string",
 )
 
@@ -461,20 +461,20 @@ PROPS["C01"] = P(
         J("c01_langid_tokens_3", tier="t", unwind=6, uw=tok_uw(3), stubs=PARSER_STUBS, desc="3 x T9", weight=3, mem_gb=12),
         J("c01_extmap_dispatch_1", unwind=6, uw=ext_uw(1), stubs=EXT_STUBS, desc="ExtensionsMap::try_from_iter on [T9] (any singleton, any byte)"),
         J("c01_ulist_1", unwind=6, uw=ext_uw(1), stubs=EXT_STUBS, desc="UnicodeExtensionList::try_from_iter on [T9]"),
-        J("c01_tlist_1", tier="t", unwind=6, uw=ext_uw(1), stubs=EXT_STUBS, desc="TransformExtensionList::try_from_iter on [T9]", mem_gb=30, cbmc=NOPTR, weight=4),
+        J("c01_tlist_1", tier="x", unwind=6, uw=ext_uw(1), stubs=EXT_STUBS, desc="TransformExtensionList::try_from_iter on [T9]", mem_gb=30, cbmc=NOPTR, weight=4),
         J("c01_plist_2", unwind=6, uw=ext_uw(2), stubs=EXT_STUBS, desc="PrivateExtensionList::try_from_iter on [T9,T9]"),
         J("c01_plist_3", unwind=6, uw=ext_uw(3), stubs=EXT_STUBS, desc="on [T9,T9,T9]", weight=2),
-        J("c01_bytes_en_u_ca", tier="t", unwind=9, uw=glue_uw(7, 3), stubs=TLIST_STUBS, desc="LanguageIdentifier/Locale/ExtensionsMap::from_bytes on 'en?u?ca', every ? any byte", weight=4, mem_gb=24, cbmc=NOPTR),
-        J("c01_bytes_x_a", tier="t", unwind=7, uw=glue_uw(5, 3), stubs=TLIST_STUBS, desc="the three from_bytes on '?x?a?'", weight=4, mem_gb=24, cbmc=NOPTR),
+        J("c01_bytes_en_u_ca", tier="x", unwind=9, uw=glue_uw(7, 3), stubs=TLIST_STUBS, desc="LanguageIdentifier/Locale/ExtensionsMap::from_bytes on 'en?u?ca', every ? any byte", weight=4, mem_gb=24, cbmc=NOPTR),
+        J("c01_bytes_x_a", tier="x", unwind=7, uw=glue_uw(5, 3), stubs=TLIST_STUBS, desc="the three from_bytes on '?x?a?'", weight=4, mem_gb=24, cbmc=NOPTR),
         # extension bodies on length-profiled frames, getters/setters with arbitrary arguments, table queries:
         # the harnesses of C02/C03/C10/C07/C14 run under C01 too
         reuse("C02", "c02_bytes_len1"), reuse("C02", "c02_tokens_2"), reuse("C02", "c02_bytes_len2", "t"),
         reuse("C03", "c03_u_2_3_9"), reuse("C03", "c03_u_8_2_4"), reuse("C03", "c03_u_3_0"), reuse("C03", "c03_u_9"), reuse("C03", "c03_u_1"),
-        reuse("C03", "c03_t_2_3", "t"), reuse("C03", "c03_t_3"), reuse("C03", "c03_x_3"),
+        reuse("C03", "c03_t_3"), reuse("C03", "c03_x_3"),
         reuse("C10", "c10_attr_history_2"), reuse("C10", "c10_tag_history_2"), reuse("C10", "c10_kw_history_1"), reuse("C10", "c10_tf_history_1"),
         reuse("C07", "c07_laws_und"), reuse("C14", "c14_script_decides@nolikely") if False else reuse("C07", "c07_wrapper_und"),
     ],
-    bounds="token level: language-identifier entry on 2 (quick) / 3 (thorough) subtags, each " + T9 + ", allow_extension symbolic; extension dispatcher and -u- body on one T9, -x- body on 2..3 T9, -t- body on one T9 (thorough); extension bodies on the length-profiled frames of C03; every extension getter/setter with T9 arguments on the default state and after one symbolic operation (C10 harnesses); byte level: every 2-byte string through LanguageIdentifier::from_bytes and the frames 'en?u?ca', '?x?a?' (every ? any byte) through LanguageIdentifier/Locale/ExtensionsMap::from_bytes; maximize for every (und, script?, region?)",
+    bounds="token level: language-identifier entry on 2 (quick) / 3 (thorough) subtags, each " + T9 + ", allow_extension symbolic; extension dispatcher and -u- body on one T9, -x- body on 2..3 T9, -t- body on the frame [3]; extension bodies on the length-profiled frames of C03; every extension getter/setter with T9 arguments on the default state and after one symbolic operation (C10 harnesses); byte level: every string of <= 1 byte (quick) / 2 bytes (thorough) through LanguageIdentifier::from_bytes; maximize for every (und, script?, region?)",
     outside="subtags longer than 9 bytes; inputs with more subtags than the frames; allocation failure; FromStr (same code path as from_bytes on as_bytes()); minimize and the 7143-row table (thorough tiers of C06/C08); stack depth (the call graph has no recursion: CBMC reports recursion as an unwinding obligation and none appears)",
 )
 
